@@ -28,26 +28,30 @@ ASSUMPTIONS = [
 ]
 
 PROBLEMS = [
-    ("y(i) = A(i,j) * x(j)", "d", {"A": ((2, 3), "ds"), "x": ((3,), "d")}),
-    ("y(i) = A(i,j) * x(j)", "s", {"A": ((2, 3), "ds"), "x": ((3,), "s")}),
-    ("y(i) = A(i,j) * x(j) + 1", "d", {"A": ((2, 3), "ds"), "x": ((3,), "d")}),
-    ("y(i,j) = A(i,j) + B(i,j)", "ds", {"A": ((2, 3), "ds"), "B": ((2, 3), "ds")}),
-    ("y(i,j) = A(i,j) * B(i,j)", "ss", {"A": ((2, 3), "ss"), "B": ((2, 3), "ds")}),
-    ("y(j,i) = A(i,j)", "ds", {"A": ((2, 3), "d1s0")}),
-    ("y() = x(i) * x(i)", "", {"x": ((3,), "s")}),
-    ("y(i,k) = A(i,j) * B(j,k)", "dd", {"A": ((2, 3), "ds"), "B": ((3, 2), "ds")}),
-    ("z(i) = x(i) - w(i)", "s", {"x": ((3,), "s"), "w": ((3,), "s")}),
-    ("y(i,j) = A(i,j) * 2", "ss", {"A": ((2, 3), "ss")}),
+    ("y(i) = A(i,j) * x(j)", "d", {"A": ("ij", "ds"), "x": ("j", "d")}),
+    ("y(i) = A(i,j) * x(j)", "s", {"A": ("ij", "ds"), "x": ("j", "s")}),
+    ("y(i) = A(i,j) * x(j) + 1", "d", {"A": ("ij", "ds"), "x": ("j", "d")}),
+    ("y(i,j) = A(i,j) + B(i,j)", "ds", {"A": ("ij", "ds"), "B": ("ij", "ds")}),
+    ("y(i,j) = A(i,j) * B(i,j)", "ss", {"A": ("ij", "ss"), "B": ("ij", "ds")}),
+    ("y(j,i) = A(i,j)", "ds", {"A": ("ij", "d1s0")}),
+    ("y() = x(i) * x(i)", "", {"x": ("i", "s")}),
+    ("y(i,k) = A(i,j) * B(j,k)", "dd", {"A": ("ij", "ds"), "B": ("jk", "ds")}),
+    ("z(i) = x(i) - w(i)", "s", {"x": ("i", "s"), "w": ("i", "s")}),
+    ("y(i,j) = A(i,j) * 2", "ss", {"A": ("ij", "ss")}),
 ]
+# the same cached kernel is called with differently sized inputs (per-call state must not live on the shared object)
+SIZES = [{"i": 2, "j": 3, "k": 2}, {"i": 4, "j": 3, "k": 2}, {"i": 2, "j": 5, "k": 3}, {"i": 3, "j": 3, "k": 3}]
 
 
 def make_call(pidx, variant, backend):
-    text, out_fmt, ins = PROBLEMS[pidx % len(PROBLEMS)]
-    inputs = {}
-    for k, (name, (dims, fmt)) in enumerate(sorted(ins.items())):
-        dok = {}
-        import itertools
+    import itertools
 
+    text, out_fmt, ins = PROBLEMS[pidx % len(PROBLEMS)]
+    sizes = SIZES[variant % len(SIZES)]
+    inputs = {}
+    for k, (name, (idx, fmt)) in enumerate(sorted(ins.items())):
+        dims = tuple(sizes[i] for i in idx)
+        dok = {}
         for c in itertools.product(*[range(d) for d in dims]):
             h = (sum((q + 2) * v for q, v in enumerate(c)) + variant + 3 * k) % 4
             if h != 0:
@@ -69,8 +73,18 @@ def controlled_cases(draw, tier):
         p = base if same else draw(st.integers(0, 9))
         backend = "cffi" if draw(st.integers(0, 11)) == 0 else "llvm"
         calls.append([p, draw(st.integers(0, 3)), backend])
-    choices = draw(st.lists(st.integers(0, 3), min_size=50, max_size=400))
-    return {"mode": "controlled", "calls": calls, "choices": choices}
+    kind = draw(st.sampled_from(["random", "random", "round_robin", "round_robin", "bursts"]))
+    if kind == "random":
+        choices = draw(st.lists(st.integers(0, 3), min_size=50, max_size=400))
+    elif kind == "round_robin":
+        # lock-step: every thread advances one traced line in turn (the worst case for per-call state kept on a
+        # shared object); an optional offset de-synchronises the threads by a few lines
+        choices = [0] * draw(st.integers(0, 12)) + list(range(n)) * 40
+        choices = choices[: 40 * n]
+    else:
+        b = draw(st.integers(2, 9))
+        choices = [t for t in range(n) for _ in range(b)]
+    return {"mode": "controlled", "calls": calls, "choices": choices, "schedule": kind, "warm": draw(st.booleans())}
 
 
 @st.composite
@@ -107,11 +121,15 @@ def check(case, worker):
     distinct = len(set((p, c[2]) for p, c in zip(probs, case["calls"])))
     raced = any(probs.count(p) >= 2 for p in set(probs))
     labels = {f"mode:{case['mode']}", f"threads:{min(len(workload), 16)}"}
+    if case["mode"] == "controlled":
+        labels.add(f"schedule:{case.get('schedule', 'random')}")
+        labels.add("cache_warm" if case.get("warm") else "cache_cold")
     if any(c[2] == "cffi" for c in case["calls"]):
         labels.add("cffi_backend_involved")
     extra = {}
     if case["mode"] == "controlled":
-        rep = worker.call({"op": "controlled", "workload": workload, "choices": case["choices"]}, timeout=400)
+        rep = worker.call({"op": "controlled", "workload": workload, "choices": case["choices"],
+                           "warm": case.get("warm", False)}, timeout=400)
     else:
         rep = worker.call({"op": "stress", "workload": workload, "nthreads": 16, "rounds": case["rounds"]}, timeout=900)
     if "crash" in rep:
